@@ -970,6 +970,8 @@ def m_vec_push(ex, m, argv, guard, st, callee):
         if i < n:
             items[i] = argv[1]
     else:
+        if os.environ.get('VERIF_DEBUG_PUSH') and isinstance(argv[1], Model):
+            print('SYMBOLIC outer len', ln.sexpr()[:400], ex.stack[-2:], st.ckey)
         for i in range(n):
             items[i] = ite_val(ln == bv(i, 64), argv[1], items[i])
     nv = Model('vec', items=Agg(items, 'vecitems'), len=zsimp(ln + bv(1, 64)),
@@ -1135,7 +1137,10 @@ def m_map_collect(ex, m, argv, guard, st, callee):
                 o2[i] = r if r is not None else UNIT
                 nxt.append((g2, s2, o2))
             if before is not None:
-                nxt.append((zand(g0, znot(active)), before, dict(out0)))
+                # element beyond the (symbolic) length: the slot keeps a placeholder so that this branch merges with the others
+                o3 = dict(out0)
+                o3[i] = x
+                nxt.append((zand(g0, znot(active)), before, o3))
         groups = {}
         for g_, s_, o_ in nxt:
             groups.setdefault((s_.key(), tuple(sorted(o_))), []).append((g_, s_, o_))
@@ -1321,6 +1326,43 @@ def m_hashset_binop(ex, m, argv, guard, st, callee):
     raise Unsupported("HashSet operator %s" % op)
 
 
+def m_hashset_update(ex, m, argv, guard, st, callee):
+    """In-place updates of a HashSet<u32>: extend(&other / other), remove(&id), clear()."""
+    ref = argv[0]
+    if not isinstance(ref, PlaceRef):
+        raise Unsupported("HashSet::%s through %s" % (m.group(1), type(ref).__name__))
+    old = ex.read_ref(st, ref)
+    w = _hs_width(ex)
+    op = m.group(1)
+    if op == 'clear':
+        ex.write_cell(st, ref.cell, ref.path, bv(0, w))
+        return guard, UNIT
+    other = deref_any(ex, st, argv[1])
+    if op == 'extend':
+        if not (is_z3(other) and other.size() == w):
+            raise Unsupported("HashSet::extend with %r" % (other,))
+        ex.write_cell(st, ref.cell, ref.path, zsimp(old | other))
+        return guard, UNIT
+    if op == 'remove':
+        bit = _hs_bit(ex, guard, other)
+        ex.write_cell(st, ref.cell, ref.path, zsimp(old & ~bit))
+        return guard, zsimp((old & bit) != bv(0, w))
+    raise Unsupported("HashSet::%s" % op)
+
+
+def m_hashset_relation(ex, m, argv, guard, st, callee):
+    a, b = deref_any(ex, st, argv[0]), deref_any(ex, st, argv[1])
+    w = _hs_width(ex)
+    op = m.group(1)
+    if op == 'is_subset':
+        return guard, zsimp((a & ~b) == bv(0, w))
+    if op == 'is_superset':
+        return guard, zsimp((b & ~a) == bv(0, w))
+    if op == 'is_disjoint':
+        return guard, zsimp((a & b) == bv(0, w))
+    raise Unsupported("HashSet::%s" % op)
+
+
 def m_hashset_len(ex, m, argv, guard, st, callee):
     sv = deref_any(ex, st, argv[0])
     total = bv(0, 64)
@@ -1406,6 +1448,68 @@ def m_iter_mut_find(ex, m, argv, guard, st, callee):
     if isinstance(argv[0], PlaceRef):
         pass        # the iterator is consumed by the callers modelled here (find on a temporary)
     return guard, option(ex, zsimp(found), PlaceRef(ref.cell, ref.path + (('vecsel', idx),)))
+
+
+def m_option_flatten(ex, m, argv, guard, st, callee):
+    o = argv[0]
+    none = EnumV(ex.defs.find_enum('Option'), bv(0, 64), {'None': ()})
+    if 'Some' not in o.variants:
+        return guard, none
+    return guard, ite_val(option_is_some(o), o.variants['Some'][0], none)
+
+
+def m_iter_skip(ex, m, argv, guard, st, callee):
+    it, n = argv
+    if not (isinstance(it, Model) and it.kind == 'slice_iter'):
+        raise Unsupported("skip on %r" % (it,))
+    s = it.f['slice']
+    f = dict(it.f)
+    p = it.f['pos'] + n
+    f['pos'] = zsimp(zite(z3.ULE(p, s.length), p, s.length))
+    return guard, Model('slice_iter', **f)
+
+
+def m_iter_flat_map(ex, m, argv, guard, st, callee):
+    it = argv[0]
+    if not (isinstance(it, Model) and it.kind == 'slice_iter'):
+        raise Unsupported("flat_map on %r" % (it,))
+    return guard, Model('flat_map_iter', it=it, fn=argv[1])
+
+
+def m_flat_map_find(ex, m, argv, guard, st, callee):
+    """FlatMap<slice iterator, slice::Iter, f>::find(p): the first inner element, in order, that satisfies the pure
+    predicate; f maps an outer element to an iterator over a slice."""
+    fm = ex.read_ref(st, argv[0]) if isinstance(argv[0], PlaceRef) else argv[0]
+    if not (isinstance(fm, Model) and fm.kind == 'flat_map_iter'):
+        raise Unsupported("find on %r" % (fm,))
+    it, cl1, cl2 = fm.f['it'], fm.f['fn'], argv[1]
+    s = it.f['slice']
+    t1, t2 = find_closure(ex, cl1.tag), find_closure(ex, cl2.tag)
+    ex.fresh_n += 1
+    c1, c2 = (0, 'closure%da' % ex.fresh_n), (0, 'closure%db' % ex.fresh_n)
+    st.mem[c1], st.mem[c2] = cl1, cl2
+    res = EnumV(ex.defs.find_enum('Option'), bv(0, 64), {'None': ()})
+    for j in range(len(s.backing) - 1, -1, -1):
+        elem = s.backing[j]
+        active = zsimp(zand(z3.ULE(s.start + it.f['pos'], bv(j, 64)), z3.ULT(bv(j, 64), s.start + s.length)))
+        if z3.is_false(active) or elem is None:
+            continue
+        item = ValRef(elem) if it.f['by_ref'] else elem
+        _g, inner = ex.call_function(t1.fn, [PlaceRef(c1), item], zand(guard, active), st.copy())
+        if not (isinstance(inner, Model) and inner.kind == 'slice_iter'):
+            raise Unsupported("flat_map closure returns %r" % (inner,))
+        si = inner.f['slice']
+        for k in range(len(si.backing) - 1, -1, -1):
+            e2 = si.backing[k]
+            act2 = zsimp(zand(active, z3.ULE(si.start + inner.f['pos'], bv(k, 64)), z3.ULT(bv(k, 64), si.start + si.length)))
+            if z3.is_false(act2) or e2 is None:
+                continue
+            item2 = ValRef(e2) if inner.f['by_ref'] else e2
+            _g, b = ex.call_function(t2.fn, [PlaceRef(c2), ValRef(item2)], zand(guard, act2), st.copy())
+            res = ite_val(zand(act2, b), EnumV(ex.defs.find_enum('Option'), bv(1, 64), {'Some': (item2,)}), res)
+    del st.mem[c1]
+    del st.mem[c2]
+    return guard, res
 
 
 def m_filter_find(ex, m, argv, guard, st, callee):
@@ -1602,12 +1706,21 @@ def register(ex):
     A(r'^(?:std::collections::)?HashSet::<u32>::contains::<u32>$', m_hashset_contains, 'HashSet<u32>::contains (bit set)')
     A(r'^(?:std::collections::)?HashSet::<u32>::is_empty$', m_hashset_is_empty, 'HashSet<u32>::is_empty (bit set)')
     A(r'^(?:std::collections::)?HashSet::<u32>::len$', m_hashset_len, 'HashSet<u32>::len (bit set)')
+    A(r'^(?:std::collections::)?HashSet::<u32>::(clear|remove)(?:::<u32>)?$', m_hashset_update, 'HashSet<u32>::clear/remove (bit set)')
+    A(r'^<(?:std::collections::)?HashSet<u32> as (?:std::iter::)?Extend<&?u32>>::(extend)::<&?(?:std::collections::)?HashSet<u32>>$', m_hashset_update, 'HashSet<u32>::extend(set) (bit set)')
+    A(r'^(?:std::collections::)?HashSet::<u32>::(is_subset|is_superset|is_disjoint)$', m_hashset_relation, 'HashSet<u32>::is_subset/is_superset/is_disjoint (bit set)')
+    A(r'^<(?:std::collections::)?HashSet<u32> as (?:std::default::)?Default>::default$', m_hashset_new, 'HashSet<u32>::default (bit set)')
     A(r'^<&(?:std::collections::)?HashSet<u32> as (?:std::ops::)?(BitOr|BitAnd|Sub|BitXor)(?:<.*>)?>::(?:bitor|bitand|sub|bitxor)$', m_hashset_binop, 'set union/intersection/difference on &HashSet<u32> (bit set)')
     A(r'^core::slice::<impl \[.*\]>::iter_mut$', m_vec_iter_mut, 'slice::iter_mut over a whole Vec')
     A(r'^<&mut (?:std::vec::)?Vec<.*> as (?:std::iter::)?IntoIterator>::into_iter$', m_vec_iter_mut, '<&mut Vec<T>>::into_iter')
     A(r'^<(?:std::slice::)?IterMut<.*> as (?:std::iter::)?Iterator>::next$', m_iter_mut_next, 'slice::IterMut::next (places inside the Vec)')
     A(r'^<(?:std::slice::)?IterMut<.*> as (?:std::iter::)?Iterator>::find::<\{closure@.*$', m_iter_mut_find, 'slice::IterMut::find with a pure predicate (symbolic element place)')
     A(r'^<(?:std::slice::)?IterMut<.*> as (?:std::iter::)?IntoIterator>::into_iter$', m_identity_iter, 'IntoIterator for IterMut (identity)')
+    A(r'^(?:std::option::)?Option::<(?:std::option::)?Option<.*>>::flatten$', m_option_flatten, 'Option<Option<T>>::flatten')
+    A(r'^<(?:std::slice::)?Iter<.*> as (?:std::iter::)?Iterator>::skip$', m_iter_skip, 'slice::Iter::skip')
+    A(r'^<(?:std::iter::)?Skip<(?:std::slice::)?Iter<.*>> as (?:std::iter::)?Iterator>::flat_map::<.*$', m_iter_flat_map, 'Skip<slice::Iter>::flat_map (lazy)')
+    A(r'^<(?:std::slice::)?Iter<.*> as (?:std::iter::)?Iterator>::flat_map::<.*$', m_iter_flat_map, 'slice::Iter::flat_map (lazy)')
+    A(r'^<(?:std::iter::)?FlatMap<.*> as (?:std::iter::)?Iterator>::find::<\{closure@.*$', m_flat_map_find, 'FlatMap<slice iterator, slice::Iter, f>::find with a pure predicate')
     A(r'^<(?:std::iter::)?Filter<(?:std::slice::)?Iter<.*>, \{closure@.*\}> as (?:std::iter::)?Iterator>::find::<\{closure@.*$', m_filter_find, 'Filter<slice::Iter, p>::find with pure predicates')
     A(r'^<(?:std::ops::)?Range<u(?:8|16|32|64)> as (?:std::iter::)?IntoIterator>::into_iter$', m_identity_iter, 'Range<uN>::into_iter (identity)')
     A(r'^<(?:std::ops::)?Range<u(?:8|16|32|64)> as (?:std::iter::)?Iterator>::next$', m_range_next, 'Range<uN>::next')
